@@ -230,10 +230,14 @@ def props_status(pid):
         return [], [], "no Props file"
     txt = re.sub(r"\(\*.*?\*\)", "", open(v).read(), flags=re.S)
     names = [m.group(2) for m in THM_RE.finditer(txt)]
+    # a stale .vo must not count: ask make whether the target (with all its dependencies) is up to date / buildable
+    with open(os.path.join(COQ, ".lock"), "w") as lk:
+        fcntl.flock(lk, fcntl.LOCK_EX)
+        r = sh(f"timeout 1800 make theories/Props/{pid}.vo", cwd=COQ, capture_output=True, text=True)
     vo = v + "o"
-    if os.path.exists(vo) and os.path.getmtime(vo) >= os.path.getmtime(v):
+    if r.returncode == 0 and os.path.exists(vo) and os.path.getmtime(vo) >= os.path.getmtime(v):
         return names, list(names), ""
-    return names, [], "Props/%s.vo was not produced" % pid
+    return names, [], "Props/%s.vo could not be (re)built: %s" % (pid, (r.stdout + r.stderr)[-1500:])
 
 
 def print_assumptions(pid, names):
